@@ -82,7 +82,7 @@ func isMutexType(t types.Type) bool {
 }
 
 // resolveGuardTable infers, for every guarded field, its guarding mutex.
-func (p *Prog) resolveGuardTable(c *Ctx) (map[*types.Var]*types.Var, map[*types.Var]string) {
+func (p *Prog) resolveGuardTable(c *Ctx, keep func(string) bool) (map[*types.Var]*types.Var, map[*types.Var]string) {
 	fieldByName := map[string]*types.Var{}
 	cands := map[*types.Var][]*types.Var{} // field -> candidate mutexes
 	for _, sp := range scopePkgs {
@@ -120,6 +120,9 @@ func (p *Prog) resolveGuardTable(c *Ctx) (map[*types.Var]*types.Var, map[*types.
 	}
 	want := map[*types.Var]string{}
 	for _, fn := range guardedFields {
+		if keep != nil && !keep(fn) {
+			continue
+		}
 		fv := fieldByName[fn]
 		if fv == nil {
 			if !optionalFields[fn] {
@@ -316,7 +319,7 @@ func ruleGuard(c *Ctx) { ruleGuardScoped(c, nil) }
 // field-write discipline and the atomic id counters.
 func ruleGuardScoped(c *Ctx, keep func(string) bool) {
 	p := c.P
-	guard, names := p.resolveGuardTable(c)
+	guard, names := p.resolveGuardTable(c, keep)
 	for _, f := range p.Funcs {
 		if strings.HasSuffix(p.Fset.Position(f.Body.Pos()).Filename, "testing.go") {
 			continue
